@@ -1,8 +1,10 @@
 From Coq Require Import ZArith List.
-From EV Require Import Res Arr Spans SpansSpec SpansBase SpansRef SpansKernels SpansSorted SpansOrder SpansReduce SpansIndexedReduce SpansMain FilterIndexSort.
-Check @list_neqb_spec. Check @get_spans_for_multi_fields_ref. Check @check_if_sorted_ref. Print zrange.
-Check @apply_spans_min_pf. Check @apply_spans_first_pf. Check @string_argmin_pf. Check @apply_spans_count_ref.
-Check @is_spans_range_pf. Check @is_spans_valid_pf. Check @map_res_ok. Check @np_take_ok.
-Search spans_ref is_spans.
-Search valid_spans spans_ref.
-Search indexed_rows.
+From EV Require Import Res Arr Spans SpansSpec SpansBase SpansRef SpansKernels SpansSorted SpansOrder SpansReduce SpansIndexedReduce SpansMain FilterIndexSort FilterIndexFrames FilterIndexKernels.
+Search adj_any_eq.
+Check @apply_spans_max_pf. Check @apply_spans_last_pf. Check @apply_spans_index_of_first_ref. Check @apply_spans_index_of_last_ref.
+Search psums sorted.
+Search (len (psums _)).
+Search select_body wf_body.
+Print valid_spans.
+Search span_pairs In.
+Search reduce_spans.
